@@ -66,6 +66,8 @@ def prec(p):
     # ---------------- relaxed supernode
     f = f"{SRC}/{g}_factor_snode.c"
     include(f, inc_after)
+    ins(f, "\tnextlu += nsupr;\n",
+        "\tSLU_VERIF_EV(\"SnPivot\", pnum, icol, pivrow, *info);\n")
     ins(f, "    /* Store the row subscripts of kcol-1 for pruned graph */\n",
         "    SLU_VERIF_EV(\"SnFact\", pnum, jcol, kcol - jcol, singular);\n")
     # ---------------- column dfs: join an existing supernode
